@@ -2828,6 +2828,7 @@ def _naming_follows_age(ctx):
             me = Obj("expr_container:Term", "term")
             sy = Obj(None, "term.sympy")
             sy.attrs["subs"] = lambda s_, a_, k_: sym("substituted")
+            sy.attrs["atoms"] = lambda s_, a_, k_, all_=tuple(G + H): set(all_)
             me.attrs.update(contracted=tuple(sorted(G + H, key=ckey)), target=(), sympy=sy, assumptions={})
             me.__dict__["G"] = G
             return dict(self=me, return_sympy=False, only_build_sub=True)
@@ -2839,7 +2840,10 @@ def _naming_follows_age(ctx):
             d = args()
             holder["G"] = d["self"].G
             return d
-        outs = sx.run(fn, args2)
+        try:
+            outs = sx.run(fn, args2)
+        except AnalysisError:
+            return None     # not evaluable on the model term: the clause is not decided
         if len(outs) != 1 or outs[0].kind != "return" or not isinstance(outs[0].value, list):
             return None
         sub = {id(o): n for o, n in outs[0].value if isinstance(o, Obj) and isinstance(n, Obj)}
